@@ -16,6 +16,7 @@ TrE == Cfg.E
 TrThrW == Cfg.thrW
 TrW == Cfg.w
 TrStream == Cfg.stream
+TrRepair == IF "repair" \in DOMAIN Cfg THEN Cfg.repair ELSE TRUE   \* the tree under test: decided by its own behaviour, see TRestart
 Fact(x) == CHOOSE r \in {Cfg.facts[k] : k \in 1..Len(Cfg.facts)} : r.b = x
 TrScore(x) == Fact(x).score
 TrIdLess(x, y) == Fact(x).ord < Fact(y).ord
@@ -53,9 +54,9 @@ TDone == /\ IsEv("Done") /\ up /\ pc = "idle" /\ i > 1 /\ Stream[i - 1] = Ev.b
 TCrash == IsEv("Crash") /\ Crash
 \* restart: observations with real reads
 TRestart == /\ IsEv("Restart") /\ Restart
-            /\ Ev.best = dBest /\ Ev.fin = dFin
+            /\ Ev.best = dBest /\ Ev.fin = dFin'                    \* after the start-up repair, if any
             /\ Ev.complete = TRUE /\ Ev.logsok = TRUE
-            /\ BestComplete /\ IsAnc(dFin, Ref.fin)
+            /\ BestComplete /\ IsAnc(dFin', Ref.fin)
 CastQ(seq) == {<<seq[k][1], seq[k][2]>> : k \in 1..Len(seq)}
 TEnd == /\ IsEv("End") /\ Finished
         /\ Ev.best = dBest /\ Ev.fin = dFin /\ Ev.logsok = TRUE
